@@ -26,7 +26,10 @@ COMPILE_OPS = [
     ('compile', ':-soup-contains(x)', None), ('compile', 'p.a > b', None), ('compile', ':--c', 'C'), ('compile', 'div :--d', 'C'),
 ]
 MATCH_OPS = [('select', 'p:lang(en)', None), ('match', ':default', None), ('filter', ':nth-child(2)', None), ('closest', 'div:not(.x)', None),
-             ('select', ':--c', 'C'), ('purge', '', None)]
+             ('select', ':--c', 'C'), ('purge', '', None),
+             # parentless elements (two different ones: any scratch object shared between calls shows up)
+             ('match-parentless-1', 'div:first-child', None), ('match-parentless-2', 'p:nth-last-child(1)', None), ('select-parentless-1', ':nth-child(2)', None)]
+WARM = 600      # distinct names pushed through util.lower before every execution: its cache (bound 512) is full, as in a long-lived process
 
 
 def make_doc():
@@ -43,8 +46,19 @@ def op_callable(sv, op, doc):
     if kind == 'purge':
         return lambda: sv.purge()
     els = T.elements(doc)
+    if kind.endswith(('-parentless-1', '-parentless-2')):
+        target = PARENTLESS[kind[-1]]
+        return lambda: getattr(sv, kind.split('-')[0])(pat, target)
     target = {'select': doc, 'match': els[3], 'filter': els[0], 'closest': els[5]}[kind]
     return lambda: getattr(sv, kind)(pat, target, custom=custom)
+
+
+def _parentless():
+    kid = lambda n, k=(): ('e', n, (), tuple(k))
+    return {'1': T.build_detached(kid('div', (kid('a'), kid('b'), kid('a')))), '2': T.build_detached(kid('p', (kid('b'), kid('b'))))}
+
+
+PARENTLESS = _parentless()
 
 
 def observe(sv, op, r, doc):
@@ -58,6 +72,8 @@ def observe(sv, op, r, doc):
         return ('ok', repr(v.selectors), v.pattern, hash(v) == hash(v))
     if isinstance(v, list):
         idx = {id(e): k for k, e in enumerate(T.elements(doc))}
+        for key, root in PARENTLESS.items():
+            idx.update({id(e): 100 * int(key) + k for k, e in enumerate(T.elements(root))})
         return ('ok', [idx.get(id(x), -1) for x in v])
     if v is None or isinstance(v, bool):
         return ('ok', v)
@@ -71,6 +87,9 @@ def reset(sv):
         sv.util.lower.cache_clear()
     except Exception:
         pass
+    low = sv.util.lower
+    for i in range(WARM):
+        low('W%d' % i)
     try:
         sv.css_parser.process_custom.cache_clear()    # only exists if somebody cached it
     except Exception:
@@ -165,6 +184,8 @@ def pairs(tier):
             out.append(((m, m), 1, False))
         out.append(((MATCH_OPS[0], MATCH_OPS[1]), 1, False))
         out.append(((MATCH_OPS[4], COMPILE_OPS[7]), 1, False))
+        out.append(((MATCH_OPS[6], MATCH_OPS[7]), 1, False))
+        out.append(((MATCH_OPS[8], MATCH_OPS[7]), 1, False))
         return out
     for a, b in itertools.product(range(len(COMPILE_OPS)), repeat=2):
         out.append(((COMPILE_OPS[a], COMPILE_OPS[b]), 1, False))
@@ -188,6 +209,9 @@ def shards(tier, seed):
                 out.append((tier, pi, (lo, lo + 30)))
         else:
             out.append((tier, pi, None))
+    # longest explorations first (custom aliases parse nested selectors: several times more scheduling points)
+    weight = lambda d: -sum(3 if o[2] else (2 if o[0] != 'compile' else 1) for o in pairs(tier)[d[1]][0])
+    out.sort(key=weight)
     return out
 
 
